@@ -45,7 +45,7 @@ RULE = ("Hypothesis-generated scenarios (connect script, console delays / silenc
         "instant drawn from the scenario's own event instants (+/- 1/16 s, both same-instant orders) x optional re-init; "
         "non-trivial: shutdown lands while a connection attempt, a retry delay, a handshake or pending messages are in "
         "flight, or in the same instant as a scenario event; distinct by (scenario, instant)"
-        " Also: TCP close latency, a console that stops reading, write faults in the instant of a send, resets requested from outside, a third same-instant order with 0..7 loop turns, the instants of the last handshake answers, re-opening the closed socket.")
+        " Also: TCP close latency, a console that stops reading, write faults in the instant of a send, resets requested from outside, a third same-instant order with 0..7 loop turns, the instants of the last handshake answers, re-opening the closed socket, close() while a write is stalled by back-pressure.")
 ASSUMPTIONS = ["timers and tasks created by the harness (console answer delays, scenario events) are cancelled by the harness at the "
                "shutdown instant and are not counted as leaks",
                "after shutdown the simulated network accepts every connection attempt immediately"]
@@ -363,8 +363,18 @@ def _sock_scenario(draw, gen: int):
     # resets requested from outside the socket (heartbeat style) at arbitrary instants - also while no connection
     # exists (back-off), so that several reconnection attempts / retry delays overlap
     resets = sorted(draw(st.lists(st.integers(1, 12 * 16).map(lambda x: x / 16.0), max_size=3)))
+    # the console stops reading from instant t on (back-pressure) and a retryable message is submitted in that instant:
+    # its write is taken, its drain() blocks - close() then lands while a transmission is in flight
+    stall = draw(st.one_of(st.none(), st.integers(1, 12 * 16).map(lambda x: x / 16.0)))
+    if stall is not None:
+        sends.append([stall, draw(sockops.kind_and_params(gen)), draw(st.sampled_from(["idem", "idem", "conn", [3, 60.0]]))])
+        if draw(st.booleans()):
+            # ... and nothing else ends that connection before close() does
+            losses = [x for x in losses if x[0] < stall]
+            faults = [x for x in faults if x[0] < stall]
+            resets = [x for x in resets if x < stall]
     return {"mode": "sock", "gen": gen, "script": script, "sends": sorted(sends, key=lambda s: s[0]), "losses": sorted(losses),
-            "faults": sorted(faults, key=lambda f: f[0]), "resets": resets,
+            "faults": sorted(faults, key=lambda f: f[0]), "resets": resets, "stall": stall,
             "loss_kinds": [draw(st.sampled_from(["reset", "eof", "garbage"])) for _ in losses], "close_latency": draw(st.sampled_from([0.0, 0.0, 0.125, 1.0]))}
 
 
@@ -397,6 +407,12 @@ def _mk_sock(case):
     def ext_reset():
         t_ = rig.loop.spawn(rig.sock.reset_connection())     # what the heartbeat does on a timeout
         t_.add_done_callback(lambda t: t.cancelled() or t.exception())
+    def stall():
+        tr = rig.net.current
+        if tr is not None and tr.alive:
+            tr.pause_after = 1
+    if case.get("stall") is not None:
+        handles.append(rig.loop.call_at(case["stall"], stall))
     for t in case.get("resets", ()):
         handles.append(rig.loop.call_at(t, ext_reset))
     for t, n, _kp in case.get("faults", ()):
@@ -427,11 +443,19 @@ def check_sock(case, when, stats: Stats | None):
     finally:
         rig.dispose()
     T, same_instant = _choose(instants, when, horizon)
+    if when.get("last_answer") and case.get("faults"):
+        # close() lands in the very instant in which a write fails under a caller's send() (all three same-instant orders
+        # and 0..7 loop turns apply): the failed message is put back for a retry while / after close() empties the queue
+        T, same_instant = case["faults"][when["pick"] % len(case["faults"])][0], True
+        when = dict(when, uniform=None)
+        full["close_at_write_fault"] = True
     sd = {}
     rig, handles = None, None
 
     def fire():
         sd["phase"] = (rig.sock.is_connected, rig.net.inflight, len(rig.sock._message_queue))
+        tr = rig.net.current
+        sd["stalled"] = bool(tr is not None and tr.alive and tr.write_paused)
         sd["task"] = rig.loop.spawn(rig.sock.close())
     if when["early"]:
         rig = SockRig(case["gen"])
@@ -495,6 +519,10 @@ def check_sock(case, when, stats: Stats | None):
             classes.append("write-fault-in-caller-task")
         if when.get("reopen"):
             classes.append("reopened")
+        if full.get("close_at_write_fault"):
+            classes.append("close-in-the-instant-of-a-write-fault")
+        if sd.get("stalled"):
+            classes.append("close-while-a-write-is-stalled")
         if same_instant:
             classes.append("same-instant")
         if stats is not None:
@@ -533,6 +561,12 @@ def _mk_sock_on(rig, case):
     def ext_reset():
         t_ = rig.loop.spawn(rig.sock.reset_connection())     # what the heartbeat does on a timeout
         t_.add_done_callback(lambda t: t.cancelled() or t.exception())
+    def stall():
+        tr = rig.net.current
+        if tr is not None and tr.alive:
+            tr.pause_after = 1
+    if case.get("stall") is not None:
+        handles.append(rig.loop.call_at(case["stall"], stall))
     for t in case.get("resets", ()):
         handles.append(rig.loop.call_at(t, ext_reset))
     for t, n, _kp in case.get("faults", ()):
@@ -557,7 +591,7 @@ def shards(tier: str):
 
 def floors(tier: str):
     return {"same-instant": 50, "phase:connecting": 20, "phase:backoff-or-idle": 20, "phase:handshake": 10, "phase:initialised": 20,
-            "pending-messages": 10, "reinit": 30, "write-fault-in-caller-task": 40}
+            "pending-messages": 10, "reinit": 30, "write-fault-in-caller-task": 40, "close-while-a-write-is-stalled": 15, "close-in-the-instant-of-a-write-fault": 40}
 
 
 def run_shard(spec, seed: int, tier: str):
